@@ -6,7 +6,7 @@
    PARTIAL: the parser (the `AstEmpty` operand of a dangling dot), the annotated tree, the
    position -> node step and the eval-type annotation of arbitrary expressions are tied to this
    model by the differential run only (checks/c11.py). *)
-From GoldV Require Import Base SymTab SymTabProofs Scoping ScopingProofs ScopingWitness.
+From GoldV Require Import Base SymTab SymTabProofs Scoping ScopingProofs ScopingWitness ScopingRecase ScopingRecaseWitness.
 
 (* the listing the code computes is C18's merged listing of the class's tables, filtered *)
 Theorem C11_after_dot_is_merged_listing :
@@ -107,6 +107,30 @@ Proof.
   exists w_fwd, s_aNode, s_First, s_Last, [IId s_self; IId s_Later]. split; vm_compute; [reflexivity|discriminate].
 Qed.
 
+(* ---- re-casing the REFERENCES stored in the workspace (ws_sim, Proofs/ScopingRecase.v): parent
+   classes, `uses`, declared type names in another letter case, declarations as written: the same
+   proposals, with the same (declared) spelling ---- *)
+Theorem C11_workspace_recase :
+  forall ws ws', ws_sim ws ws' -> forall c m d d' p, ci d d' ->
+    complete_after_dot ws d = complete_after_dot ws' d' /\
+    completion_member ws c m d = completion_member ws' c m d' /\
+    completion_dotted ws c m p = completion_dotted ws' c m p /\
+    complete_plain ws c m = complete_plain ws' c m.
+Proof.
+  intros ws ws' H c m d d' p Hd. destruct (completion_sim ws ws' c m d d' H Hd) as (H1 & H2 & H3).
+  split; [exact H1|]. split; [exact H2|]. split; [apply (dotted_sim ws ws' c m p [] H)|exact H3].
+Qed.
+
+Example C11_workspace_recase_nonvacuous :
+  ws_sim w_alias w_alias_recased /\ w_alias <> w_alias_recased /\
+  (* p : TLIB, `uses ALIB`, tLib : ABASE: proposals after `p.ga().` *)
+  completion_dotted w_alias_recased r_aLeaf in_go [IId r_p; ICall r_ga] = [r_Link; r_Items; r_Ga; r_Run] /\
+  complete_after_dot w_alias_recased r_aLeaf = [r_Fb; r_Go; r_Link; r_Items; r_Ga; r_Run].
+Proof.
+  destruct w_alias_answers as (_ & _ & _ & _ & _ & H6 & _ & _ & _ & H10).
+  split; [exact w_alias_sim|]. split; [exact w_alias_differ|]. auto.
+Qed.
+
 Print Assumptions C11_after_dot_is_merged_listing.
 Print Assumptions C11_after_dot.
 Print Assumptions C11_after_dot_in_context.
@@ -119,3 +143,5 @@ Print Assumptions C11_unknown_type_nonvacuous.
 Print Assumptions C11_module_call_nonvacuous.
 Print Assumptions C11_old_after_dot_refuted_local.
 Print Assumptions C11_operand_type_refuted_forward.
+Print Assumptions C11_workspace_recase.
+Print Assumptions C11_workspace_recase_nonvacuous.
